@@ -330,6 +330,8 @@ class Conv:
                     if i in arm_rec_at:
                         self.arm("RECONCILE")
                 else:
+                    if (i in arm_kill_at or i in arm_rec_at) and self.op:
+                        raise Undrivable("a request is still outstanding")
                     if i in arm_kill_at:
                         self.arm("KILL", arm_kill_at[i][0])
                     if i in arm_rec_at:
@@ -400,7 +402,8 @@ class Conv:
 
 
 def point_key(p):
-    return (p["fault"], p["class"], p["tasks"], p["midreconcile"], tuple(p["stable"]))
+    # tasks: states of the interrupted request's tasks when the fault hits, then (crash) when the next life reconciles
+    return (p["fault"], p["class"], p["tasks"] + (">" + p["seen_as"] if p.get("seen_as") else ""), p["midreconcile"], tuple(p["stable"]))
 
 
 CRASH_RANK = ["deploying", "launch", "configuring", "-:configured", "starting", "-:running", "killing", "-:midreconcile", "-:done"]
@@ -421,8 +424,17 @@ def rank(key):
 
 def fault_points(acts):
     pts, prev = [], None
-    for a in acts:
+    for i, a in enumerate(acts):
         if a["act"] in ("Crash", "DropConnection") and prev is not None:
+            seen_as = ""
+            if a["act"] == "Crash":
+                # what the next life's reconciliation finds: tasks still TASK_STAGING or already TASK_RUNNING
+                for b in acts[i + 1:]:
+                    if b["act"] == "Reconcile":
+                        seen_as = "/".join(sorted({b["st"]["mt"][t]["st"] for t in tset(b["st"]["rq"])}))
+                        break
+                    if b["act"] in ("Crash", "DropConnection"):
+                        break
             crash = a["act"] == "Crash"
             tr = [x for x in sorted(prev["env"]) if prev["env"][x] in TRANSIENT]
             ph = prev["env"][tr[0]] if tr else "-"
@@ -431,6 +443,7 @@ def fault_points(acts):
             alive = sum(1 for t in prev["mt"] if prev["mt"][t]["st"] in ("staging", "running"))
             pts.append({"fault": "crash" if crash else "drop", "class": cls, "transient": ph, "tasks": "/".join(stg) or "-",
                         "midreconcile": bool(tset(prev["rcv"]) or tset(prev["rq"])), "alive": alive, "life": prev["life"],
+                        "seen_as": seen_as if "staging" in stg else "",
                         "stable": sorted(v for v in prev["env"].values() if v not in TRANSIENT and v != "none")})
         prev = a["st"]
     return pts
@@ -522,10 +535,21 @@ def fidnum(s):
 
 def project(lines):
     out, ended, started = [], set(), set()
+    # a child core's environment gets its alias only when the create request returns: until then the recorder shows the
+    # real id. The environment an ACCEPT launches for is the one being created (the last create request).
+    raw, creating = {}, {}
+    for ln in lines:
+        if ln["ev"] == "Api" and ln.get("call") == "create":
+            creating[ln.get("scn")] = ln.get("env")
+        elif ln["ev"] == "MAccept":
+            for t in ln["tasks"]:
+                if t.get("env") and creating.get(ln.get("scn")) and t["env"] != creating[ln.get("scn")]:
+                    raw[(ln.get("scn"), t["env"])] = creating[ln.get("scn")]
     for ln in lines:
         scn, ev = ln.get("scn", -1), ln["ev"]
         if scn < 0 or scn in ended:
             continue
+        alias = lambda x: raw.get((scn, x), x)  # noqa: E731
         if ev == "Fid":
             started.add(scn)
         if scn not in started and ev != "Reset":
@@ -562,8 +586,8 @@ def project(lines):
         elif ev == "MGateReached":
             out.append({"ev": ev, "scn": scn, "point": g("point")})
         elif ev == "Snapshot":
-            out.append({"ev": ev, "scn": scn, "envs": [{"env": e["env"], "st": e["st"]} for e in ln["envs"]],
-                        "roster": [{"task": t["task"], "locked": bool(t["locked"]), "owner": t.get("owner", "")} for t in ln["tasks"]],
+            out.append({"ev": ev, "scn": scn, "envs": [{"env": alias(e["env"]), "st": e["st"]} for e in ln["envs"]],
+                        "roster": [{"task": t["task"], "locked": bool(t["locked"]), "owner": alias(t.get("owner", ""))} for t in ln["tasks"]],
                         # alive = no KILL call has reached the master for it (the master turns it TASK_KILLED a few ms later)
                         "alive": [t["task"] for t in ln["master"] if not t["terminal"] and not t.get("kills", 0)]})
         elif ev == "Poll":
@@ -629,7 +653,7 @@ def run(ctx):
             cex.append((prop, norm(r.counterexample())))
     # 3. scenarios from the model
     nsim, depth = (500, 70) if quick else (2500, 80)
-    want = 18 if quick else 60
+    want = 19 if quick else 60
     gen = consts(["k1", "k2", "k3"], ["e1", "e2"], 2, 2, dv)
     behs = ctx.simulate("RestartGen", None, nsim, depth, cfg_text=cfg_gen(gen), seed=ctx.seed * 104729 + 17)
     scenarios, by_id = [], {}
